@@ -105,3 +105,13 @@ Theorem C03_promised : forall s sg u a sm so ov mu al s',
     profit = dec_mulint ov (a - pr_bet_fee (c_prm s)) - dec_of_int (a - pr_bet_fee (c_prm s)).
 Proof. exact wager_core_promised. Qed.
 Print Assumptions C03_promised.
+
+From Sge Require Import Gen.kernels Proofs.GenKernels.
+(* the promised winnings and the stake of a partial fill in the model ARE the Go functions: CalculatePayoutProfit and CalculateBetAmountInt
+   (with CalculateDecimalPayout / CalculateDecimalBetAmount behind them) are generated from x/bet/types on every run (Gen/kernels.v) and
+   proved equal to payout_profit and bet_amount_int *)
+Theorem C03_kernels_generated : forall ov amount profit carry,
+  K__CalculatePayoutProfit ov amount = payout_profit ov amount /\
+  (PREC < ov -> K__CalculateBetAmountInt ov profit carry = Some (bet_amount_int ov profit carry)).
+Proof. intros. split; [apply gen_CalculatePayoutProfit|apply gen_CalculateBetAmountInt]. Qed.
+Print Assumptions C03_kernels_generated.
